@@ -79,6 +79,9 @@ Proofs/Positions.vos Proofs/Positions.vok Proofs/Positions.required_vos: Proofs/
 Proofs/Heap.vo Proofs/Heap.glob Proofs/Heap.v.beautified Proofs/Heap.required_vo: Proofs/Heap.v Base/Base.vo Model/Reader.vo Model/Printer.vo Model/Api.vo
 Proofs/Heap.vio: Proofs/Heap.v Base/Base.vio Model/Reader.vio Model/Printer.vio Model/Api.vio
 Proofs/Heap.vos Proofs/Heap.vok Proofs/Heap.required_vos: Proofs/Heap.v Base/Base.vos Model/Reader.vos Model/Printer.vos Model/Api.vos
+Proofs/Depth.vo Proofs/Depth.glob Proofs/Depth.v.beautified Proofs/Depth.required_vo: Proofs/Depth.v Base/Base.vo Model/Reader.vo Model/Printer.vo Model/Store.vo Model/Eval.vo
+Proofs/Depth.vio: Proofs/Depth.v Base/Base.vio Model/Reader.vio Model/Printer.vio Model/Store.vio Model/Eval.vio
+Proofs/Depth.vos Proofs/Depth.vok Proofs/Depth.required_vos: Proofs/Depth.v Base/Base.vos Model/Reader.vos Model/Printer.vos Model/Store.vos Model/Eval.vos
 Props/C01.vo Props/C01.glob Props/C01.v.beautified Props/C01.required_vo: Props/C01.v Base/Base.vo Model/Reader.vo Model/Printer.vo Model/Store.vo Model/Eval.vo Model/Init.vo Proofs/EvalRel.vo Proofs/Cont.vo Proofs/CoreRefine.vo Spec/CoreSem.vo
 Props/C01.vio: Props/C01.v Base/Base.vio Model/Reader.vio Model/Printer.vio Model/Store.vio Model/Eval.vio Model/Init.vio Proofs/EvalRel.vio Proofs/Cont.vio Proofs/CoreRefine.vio Spec/CoreSem.vio
 Props/C01.vos Props/C01.vok Props/C01.required_vos: Props/C01.v Base/Base.vos Model/Reader.vos Model/Printer.vos Model/Store.vos Model/Eval.vos Model/Init.vos Proofs/EvalRel.vos Proofs/Cont.vos Proofs/CoreRefine.vos Spec/CoreSem.vos
@@ -130,6 +133,9 @@ Props/C16.vos Props/C16.vok Props/C16.required_vos: Props/C16.v Base/Base.vos Mo
 Props/C17.vo Props/C17.glob Props/C17.v.beautified Props/C17.required_vo: Props/C17.v Base/Base.vo Model/Reader.vo Model/Printer.vo Model/Store.vo Model/Eval.vo Model/Init.vo Proofs/Sort.vo
 Props/C17.vio: Props/C17.v Base/Base.vio Model/Reader.vio Model/Printer.vio Model/Store.vio Model/Eval.vio Model/Init.vio Proofs/Sort.vio
 Props/C17.vos Props/C17.vok Props/C17.required_vos: Props/C17.v Base/Base.vos Model/Reader.vos Model/Printer.vos Model/Store.vos Model/Eval.vos Model/Init.vos Proofs/Sort.vos
+Props/C18.vo Props/C18.glob Props/C18.v.beautified Props/C18.required_vo: Props/C18.v Base/Base.vo Model/Reader.vo Model/Printer.vo Model/Store.vo Model/Eval.vo Model/Init.vo Proofs/Depth.vo Proofs/EvalRel.vo Proofs/TailCalls.vo
+Props/C18.vio: Props/C18.v Base/Base.vio Model/Reader.vio Model/Printer.vio Model/Store.vio Model/Eval.vio Model/Init.vio Proofs/Depth.vio Proofs/EvalRel.vio Proofs/TailCalls.vio
+Props/C18.vos Props/C18.vok Props/C18.required_vos: Props/C18.v Base/Base.vos Model/Reader.vos Model/Printer.vos Model/Store.vos Model/Eval.vos Model/Init.vos Proofs/Depth.vos Proofs/EvalRel.vos Proofs/TailCalls.vos
 Props/C19.vo Props/C19.glob Props/C19.v.beautified Props/C19.required_vo: Props/C19.v Base/Base.vo Model/Reader.vo Model/Printer.vo Model/Store.vo Model/Eval.vo Model/Init.vo Proofs/Contexts.vo
 Props/C19.vio: Props/C19.v Base/Base.vio Model/Reader.vio Model/Printer.vio Model/Store.vio Model/Eval.vio Model/Init.vio Proofs/Contexts.vio
 Props/C19.vos Props/C19.vok Props/C19.required_vos: Props/C19.v Base/Base.vos Model/Reader.vos Model/Printer.vos Model/Store.vos Model/Eval.vos Model/Init.vos Proofs/Contexts.vos
